@@ -8,5 +8,6 @@ INVARIANT EmbeddedIsText
 INVARIANT ConstantIsItself
 INVARIANT NeverSendsNothing
 INVARIANT PointerLaws
+INVARIANT TreeAllOrNothing
 INVARIANT Export
 CHECK_DEADLOCK FALSE
